@@ -47,6 +47,9 @@ pub struct C04Case
     /// TMPDIR points at a directory that does not exist (under a writable parent inside the sandbox)
     #[serde(default)]
     pub missing_tmpdir: bool,
+    /// one more run whose standard output cannot be written: 0 none, 1 /dev/full, 2 pipe without reader, 3 closed descriptor
+    #[serde(default)]
+    pub broken_stdout: u8,
 }
 
 pub fn strategy() -> BoxedStrategy<C04Case>
@@ -77,8 +80,8 @@ pub fn strategy() -> BoxedStrategy<C04Case>
         p_preamble: 10,
         ..StmtParams::default()
     };
-    (model_tree(StructSel::AnyOrOmitted, p, 4, 6, true), lock, cache, ext, breakage, plan, any::<bool>(), prop_oneof![4 => Just(false), 1 => Just(true)], prop_oneof![5 => Just(false), 1 => Just(true)])
-        .prop_map(|(mut tree, lock, cache, ext, breakage, plan, extras, pre_edited, missing_tmpdir)| {
+    (model_tree(StructSel::AnyOrOmitted, p, 4, 6, true), lock, cache, ext, breakage, plan, any::<bool>(), prop_oneof![4 => Just(false), 1 => Just(true)], prop_oneof![5 => Just(false), 1 => Just(true)], prop_oneof![6 => Just(0u8), 1 => Just(1u8), 1 => Just(2u8), 1 => Just(3u8)])
+        .prop_map(|(mut tree, lock, cache, ext, breakage, plan, extras, pre_edited, missing_tmpdir, broken_stdout)| {
             tree.lock = lock;
             tree.cfg.use_cache = cache;
             tree.cfg.extensions = ext;
@@ -89,6 +92,7 @@ pub fn strategy() -> BoxedStrategy<C04Case>
                 extras,
                 pre_edited,
                 missing_tmpdir,
+                broken_stdout,
             }
         })
         .boxed()
@@ -220,6 +224,38 @@ pub fn check(case: &C04Case) -> CaseOutcome
         let diff = snapshot_diff(&before, &after, true, &|_| false);
         runs.push((p, r, diff));
     }
+    if case.broken_stdout != 0
+    {
+        // the run cannot print its report (it may even die of that): it still must not modify anything
+        let mode = match case.broken_stdout
+        {
+            1 => StdoutMode::DevFull,
+            2 => StdoutMode::ClosedPipe,
+            _ => StdoutMode::Closed,
+        };
+        let before = snapshot(&sb.root);
+        let r = run_breadlog_with(
+            &RunSpec {
+                check: true,
+                cwd: sb.proj(),
+                config_arg: "Breadlog.yaml".to_string(),
+                tmpdir: tmpdir.clone(),
+                plan: None,
+                trace: true,
+                roots: vec![sb.root.clone()],
+                timeout: std::time::Duration::from_secs(120),
+            },
+            mode,
+        );
+        let after = snapshot(&sb.root);
+        let diff = snapshot_diff(&before, &after, true, &|_| false);
+        o.class(&format!("stdout-unwritable-{:?}", mode));
+        if !matches!(r.exit, Exit::Code(0) | Exit::Code(1))
+        {
+            o.class("run-died-of-unwritable-stdout");
+        }
+        runs.push((format!("standard output {:?}", mode), r, diff));
+    }
     for (what, r, diff) in &runs
     {
         o.evals += 1;
@@ -342,7 +378,7 @@ pub fn run(env: &Env, rec: &Recorder) -> (String, Vec<&'static str>)
 {
     pbt(env, rec, "check-mode", env.cases(2500, 40_000), &strategy, &check);
     (
-        "modelled trees (1-4 files, decoys, directives) x configuration (macros, structured on/off/omitted, use_cache on/off/omitted, extensions) x lock (absent, valid, corrupt, empty, negative) x breakage (none, no files in scope, missing source dir, source dir is a file, invalid YAML, missing config) x extra entries (non-source files, symlinks to file and directory, empty dir, stale scratch files of different ages in TMPDIR and in the project, file outside the project, TMPDIR pointing at a directory that does not exist) x fault plan (none, SIGTERM/SIGINT at a generated operation, injected read-side I/O failure); 20 % of trees pre-edited so nothing is missing. Oracle: (1) snapshot of the whole sandbox (project, TMPDIR, cwd, outside) identical incl. mtime and inode; (2) the libc-level trace contains no mutating call on any path; (3) for a 4 % sample the same run under strace -f shows no mutating file system call either (validates the interposer's view). Non-trivial = distinct case with a missing reference, a non-default configuration point, a broken configuration or a fault plan".to_string(),
+        "modelled trees (1-4 files, decoys, directives) x configuration (macros, structured on/off/omitted, use_cache on/off/omitted, extensions) x lock (absent, valid, corrupt, empty, negative) x breakage (none, no files in scope, missing source dir, source dir is a file, invalid YAML, missing config) x extra entries (non-source files, symlinks to file and directory, empty dir, stale scratch files of different ages in TMPDIR and in the project, file outside the project, TMPDIR pointing at a directory that does not exist) x fault plan (none, SIGTERM/SIGINT at a generated operation, injected read-side I/O failure) x standard output (captured; one case in three also with /dev/full, a pipe without reader, or a closed descriptor - the run may then die, but not modify anything); 20 % of trees pre-edited so nothing is missing. Oracle: (1) snapshot of the whole sandbox (project, TMPDIR, cwd, outside) identical incl. mtime and inode; (2) the libc-level trace contains no mutating call on any path; (3) for a 4 % sample the same run under strace -f shows no mutating file system call either (validates the interposer's view). Non-trivial = distinct case with a missing reference, a non-default configuration point, a broken configuration or a fault plan".to_string(),
         vec!["the interposer sees libc-level calls of the dynamically linked build; a raw syscall() would bypass it (std and async-std use the libc wrappers)"],
     )
 }
